@@ -394,6 +394,14 @@ def run_graph(ctx: Ctx, name, doc, upto, quick):
             ctx.violation(f"C11:{name}:update-raises:{op}", f"zoo {name}: update {op} raised {v['raised']}", {"zoo": name, "op": op})
     side = {o for o in all_ops if o.startswith("sample:")}
     user_ops = [o for o in all_ops if o not in side and not all_ops[o].get("raised")]
+    # depth-one sweep over EVERY (operation, observable) pair from a warm state: the projections below pair each
+    # operation with only some observables (an update through a view of a view went stale in an observable it
+    # was never paired with in the quick tier)
+    sweep_evals = all_evals if (name == "param-zoo" or not quick) else all_evals[:10]
+    for o in user_ops:
+        warm = [("eval", e) for e in sweep_evals]
+        replay(ctx, name, doc, upto, warm + [("op", o)] + warm)
+        ctx.add("depth_one_sweeps")
     for pi, (po, pe) in enumerate(projections(user_ops, all_evals, quick)):
         ops = {o: all_ops[o] for o in list(po) + sorted(side)}
         amap, lines = {}, []
